@@ -8,6 +8,7 @@ import (
 	"github.com/aperturerobotics/util/broadcast"
 	"github.com/aperturerobotics/util/ccontainer"
 	"github.com/aperturerobotics/util/promise"
+	"github.com/aperturerobotics/util/verifhook"
 )
 
 // RefCountResolver resolves a value within a RefCount container.
@@ -131,6 +132,7 @@ func WaitRefCountContainer[T comparable](
 // Returns if the context was updated.
 func (r *RefCount[T]) SetContext(ctx context.Context) bool {
 	var updated bool
+	verifhook.Point(verifhook.RefCountLock, r)
 	r.mtx.Lock()
 	if r.ctx != ctx {
 		r.ctx = ctx
@@ -150,6 +152,7 @@ func (r *RefCount[T]) ClearContext() {
 // cb is an optional callback to call when the value changes.
 // the callback will be called with an empty value when the value becomes empty.
 func (r *RefCount[T]) AddRef(cb func(resolved bool, val T, err error)) *Ref[T] {
+	verifhook.Point(verifhook.RefCountLock, r)
 	r.mtx.Lock()
 	nref := &Ref[T]{rc: r, cb: cb}
 	r.refs[nref] = struct{}{}
@@ -344,6 +347,7 @@ func (r *RefCount[T]) Access(ctx context.Context, cb func(ctx context.Context, v
 
 // removeRef removes a reference and shuts down if no refs remain.
 func (r *RefCount[T]) removeRef(ref *Ref[T]) {
+	verifhook.Point(verifhook.RefCountLock, r)
 	r.mtx.Lock()
 	lenBefore := len(r.refs)
 	delete(r.refs, ref)
@@ -410,6 +414,7 @@ func (r *RefCount[T]) startResolveLocked() {
 
 // resolve is the goroutine to resolve the value to the container.
 func (r *RefCount[T]) resolve(ctx context.Context, waitCh, doneCh chan struct{}, nonce uint32) {
+	verifhook.Point(verifhook.RefCountResolveStart, r)
 	defer close(doneCh)
 
 	if waitCh != nil {
@@ -425,6 +430,7 @@ func (r *RefCount[T]) resolve(ctx context.Context, waitCh, doneCh chan struct{},
 	released := func() {
 		resolveAfterRelease := func(lock bool) {
 			if lock {
+				verifhook.Point(verifhook.RefCountLock, r)
 				r.mtx.Lock()
 			}
 			defer r.mtx.Unlock()
@@ -441,8 +447,11 @@ func (r *RefCount[T]) resolve(ctx context.Context, waitCh, doneCh chan struct{},
 		}
 	}
 
+	verifhook.Point(verifhook.RefCountResolveCall, r)
 	val, valRel, err := r.resolver(ctx, released)
+	verifhook.Point(verifhook.RefCountResolveDone, r)
 
+	verifhook.Point(verifhook.RefCountLock, r)
 	r.mtx.Lock()
 	defer r.mtx.Unlock()
 
